@@ -28,13 +28,14 @@ type c12Scenario struct {
 	Script    string       `json:"script"`
 	Schedules int          `json:"schedules"`
 	StopEarly bool         `json:"stop_without_waiting_for_idle"`
+	OwnFields bool         `json:"parents_have_fields_of_their_own,omitempty"` // parent p also carries a field x<p>: the names of filled fields then depend on which parent they are taken from
 	Configs   []string     `json:"configs"`
 }
 
 func c12Gen(c *Ctx) *c12Scenario {
 	g := c.G
 	sc := &c12Scenario{}
-	sc.Kind = []string{"join", "union", "join", "batchjoin", "joinon"}[g.Intn(5)]
+	sc.Kind = []string{"join", "union", "join", "batchjoin", "joinon", "batchjoin", "batchunion"}[g.Intn(7)]
 	np := g.Range(2, 3)
 	maxPts := 10
 	if c.Thorough() {
@@ -66,10 +67,15 @@ func c12Gen(c *Ctx) *c12Scenario {
 		sc.Schedules = 6
 	}
 	sc.StopEarly = g.Chance(1, 4)
+	sc.OwnFields = sc.Kind != "union" && sc.Kind != "batchunion" && sc.Fill != "" && g.Bool()
 	var sb strings.Builder
 	win := ""
-	if sc.Kind == "batchjoin" {
-		win = "\n    |window().period(10s).every(10s).align()"
+	if sc.Kind == "batchjoin" || sc.Kind == "batchunion" {
+		win = "\n    |window().period(3s).every(3s).align()" // several batches per parent, so that one parent can be batches ahead
+		if g.Bool() {
+			// a node that forwards the batch piecewise (begin, points, end): the join's reader of this parent reassembles it
+			win += "\n    |where(lambda: \"v\" >= 0)"
+		}
 	}
 	for p := 0; p < np; p++ {
 		gb := "'g'"
@@ -83,7 +89,7 @@ func c12Gen(c *Ctx) *c12Scenario {
 		others = append(others, names[p])
 	}
 	switch sc.Kind {
-	case "union":
+	case "union", "batchunion":
 		fmt.Fprintf(&sb, "%s\n    |union(%s)\n    |log().prefix('OUT')\n", names[0], strings.Join(others, ", "))
 	default:
 		var as []string
@@ -146,7 +152,11 @@ func c12Run(c *Ctx, sc *c12Scenario, k int) ([]string, []string, Verdict) {
 			go func(p int, pts []c12Point) {
 				defer wg.Done()
 				for _, pt := range pts {
-					line := fmt.Sprintf("%s,g=%s,h=h%d s=%di,v=%di %d\n", names[p], pt.G, pt.S%2, pt.S, pt.S*10+p, int64(pt.T)*int64(time.Second))
+					own := ""
+					if sc.OwnFields {
+						own = fmt.Sprintf(",x%d=%di", p, pt.S)
+					}
+					line := fmt.Sprintf("%s,g=%s,h=h%d s=%di,v=%di%s %d\n", names[p], pt.G, pt.S%2, pt.S, pt.S*10+p, own, int64(pt.T)*int64(time.Second))
 					if code := d.WriteLine("db", "rp", line); code != 204 {
 						verdict = Fail("harness/setup", "write rejected: %d", code)
 					}
@@ -179,7 +189,7 @@ func c12Run(c *Ctx, sc *c12Scenario, k int) ([]string, []string, Verdict) {
 	var lines, ordered []string
 	for _, o := range d.Sinks.Get("OUT") {
 		if o.Copy != nil {
-			l := c12Canon(o.Copy.Group, o.Copy.TimeNs, o.Copy.Fields)
+			l := c12Canon(o.Copy.Name+" "+o.Copy.Group, o.Copy.TimeNs, o.Copy.Fields)
 			lines = append(lines, l)
 			ordered = append(ordered, l)
 		} else if o.BCopy != nil {
@@ -187,7 +197,7 @@ func c12Run(c *Ctx, sc *c12Scenario, k int) ([]string, []string, Verdict) {
 			for _, p := range o.BCopy.Points {
 				ps = append(ps, c12Canon("", p.TimeNs, p.Fields))
 			}
-			l := fmt.Sprintf("batch %s tmax=%d [%s]", o.BCopy.Group, o.BCopy.TMaxNs/1e9, strings.Join(ps, "; "))
+			l := fmt.Sprintf("batch %s %s tmax=%d [%s]", o.BCopy.Name, o.BCopy.Group, o.BCopy.TMaxNs/1e9, strings.Join(ps, "; "))
 			lines = append(lines, l)
 			ordered = append(ordered, l)
 		}
@@ -267,7 +277,13 @@ func c12JoinModel(sc *c12Scenario) []string {
 					fields[names[p]+".v"] = int64(0)
 				}
 			}
-			out = append(out, c12Canon("g="+k.g, int64(k.t)*1e9, fields))
+			first := ""
+			for p := 0; p < np && first == ""; p++ {
+				if i < len(per[p]) {
+					first = names[p] // a joined point is named after the first of its parents that contributed
+				}
+			}
+			out = append(out, c12Canon(first+" g="+k.g, int64(k.t)*1e9, fields))
 		}
 	}
 	sort.Strings(out)
@@ -302,6 +318,9 @@ func runC12(c *Ctx) Verdict {
 		}
 		switch sc.Kind {
 		case "join":
+			if sc.OwnFields {
+				break // which names the filled fields of an absent parent get is not documented: schedule independence only
+			}
 			want := c12JoinModel(sc)
 			if strings.Join(want, "\n") != strings.Join(lines, "\n") {
 				v := Fail("join/pairing", "join output differs from the reference pairing model (per group and tolerance-rounded time, k-th occurrence of each parent; fill=%q, tolerance=%ds) under schedule %d.\nmissing from output:\n%s\nunexpected in output:\n%s",
@@ -315,7 +334,7 @@ func runC12(c *Ctx) Verdict {
 			var want []string
 			for p, pts := range sc.Parents {
 				for _, pt := range pts {
-					want = append(want, c12Canon("g="+pt.G, int64(pt.T)*1e9, map[string]interface{}{"s": int64(pt.S), "v": int64(pt.S*10 + p)}))
+					want = append(want, c12Canon(names[p]+" g="+pt.G, int64(pt.T)*1e9, map[string]interface{}{"s": int64(pt.S), "v": int64(pt.S*10 + p)}))
 				}
 				_ = names
 			}
@@ -331,7 +350,8 @@ func runC12(c *Ctx) Verdict {
 				var g string
 				var t int64
 				var s, vv int64
-				if _, err := fmt.Sscanf(l, "g=%s t=%d s=%d,v=%d", &g, &t, &s, &vv); err != nil {
+				var nm string
+				if _, err := fmt.Sscanf(l, "%s g=%s t=%d s=%d,v=%d", &nm, &g, &t, &s, &vv); err != nil {
 					return Fail("harness/parse", "cannot parse %q: %v", l, err)
 				}
 				if t < lastT {
@@ -412,11 +432,11 @@ func init() {
 	Register(&Prop{
 		ID:  "C12",
 		Run: runC12,
-		Rule: "case = 2-3 parent branches (separate from() per measurement, grouped by tag g, optionally windowed for a batch join, or the first parent grouped more finely and joined .on('g')) into join(as, tolerance 0/1s/5s, inner or fill null/0) or union; one writer per parent with a seeded non-decreasing time sequence (duplicates, gaps, silent or empty parents); " +
+		Rule: "case = 2-3 parent branches (separate from() per measurement, grouped by tag g, optionally windowed (3s tumbling) for a batch join, or the first parent grouped more finely and joined .on('g')) into join(as, tolerance 0/1s/5s, inner or fill null/0, parents optionally with a field of their own) or union (of points or of batches); outputs are compared with their measurement name; one writer per parent with a seeded non-decreasing time sequence (duplicates, gaps, silent or empty parents); " +
 			"the same workload is executed under 3 (quick) / 6 (thorough) independently seeded schedules, some of which starve a parent or the join; the task is then drained by TaskMaster.Close; " +
 			"non-trivial = at least one point was written; distinct = distinct (scenario, interleaving signatures of all schedules) tuples",
 		Real:        []string{"JoinNode (joinGroup, joinset), UnionNode, CircularQueue", "edge.multiConsumer (one reader goroutine per parent)", "WindowNode (batch join)", "TaskMaster ingest/fork/Close, FromNode, LogNode", "services/httpd write endpoint"},
 		Stub:        []string{"libflux C stub (never called)", "no sockets"},
-		Assumptions: []string{"each parent's points are written in non-decreasing time order by one writer (the property's precondition)", "batch joins and join().on() (first parent grouped by g,h, the others by g) are checked for schedule independence only (no pairing model)"},
+		Assumptions: []string{"each parent's points are written in non-decreasing time order by one writer (the property's precondition)", "batch joins, batch unions and join().on() (first parent grouped by g,h, the others by g) are checked for schedule independence only (no pairing model)"},
 	})
 }
